@@ -8,77 +8,77 @@ HERE = os.path.dirname(os.path.dirname(os.path.abspath(__file__)))
 CHECKS = {
  "C05": ("exploration",
          "reference-model history monitor + invariant hook (bounded-exhaustive BFS over slot layouts, long random histories)",
-         "Every operation of the ordered map is applied from every slot layout reachable within a bounded history length (three keys, stale tombstone keys included) and in long random histories over 4/16/200 keys and an alphabet of look-alike and control-character keys that cross the compaction threshold thousands of times, started from empty maps and from maps built with MapFromItems out of a caller-owned slice (which, like a sibling built from it, must stay untouched); after every operation all observers (Len, IsZero, Get, Contains, Range incl. early exit and renaming callbacks, ToMap, ToMapRecursive, both encoders re-read with independent readers, Equal against an independently built twin, perturbed twins and a pool of reached states) are compared with a list-of-pairs model and the index/slot invariant hook is evaluated. Held on the executions observed; not a proof.",
+         "Every operation of the ordered map is applied from every slot layout reachable within a bounded history length (three keys, stale tombstone keys included) and in long random histories over 4/16/200 keys and an alphabet of look-alike and control-character keys that cross the compaction threshold thousands of times, started from empty maps and from maps built with MapFromItems out of a caller-owned slice (which, like a sibling built from it, must stay untouched); after every operation all observers (Len, IsZero, Get, Contains, Range incl. early exit and renaming callbacks, ToMap, ToMapRecursive, both encoders re-read with independent readers, Equal against an independently built twin, perturbed twins and a pool of reached states) are compared with a list-of-pairs model and the index/slot invariant hook is evaluated. A large-map phase empties maps of 1022 to 4096 / 9000 keys in bulk in five patterns and writes to them again. Held on the executions observed; not a proof.",
          "Trusts the list-of-pairs model, encoding/json's token reader and yaml.v3's Node reader as independent readers; values are opaque to the map so layouts, not values, are enumerated.",
          "DESIGN.md §2 C05"),
  "C10": ("exploration",
          "reference-model monitor: sequential env-fold model vs Interpolate over generated env blocks x flag x five caller environments (incl. the internal env through a hook)",
-         "Random env blocks (chains, forward references, names built by expansion and colliding, empty names, runtime overlaps, failing expansions) are interpolated by the real code and by a sequential fold model that rewrites a list-of-pairs block in place and feeds a model environment; block order and contents, a probe string in a step and the caller's environment (harness case-sensitive/-insensitive, the library's internal env in both modes, nil) must agree for both settings of the runtime-precedence flag; env blocks built with MapFromItems from one slice for two pipelines, and a caller environment that is a zero-valued stateless struct, are included. Held on the executions observed.",
+         "Random env blocks (chains, forward references, names built by expansion and colliding, empty names, runtime overlaps, failing expansions) are interpolated by the real code and by a sequential fold model that rewrites a list-of-pairs block in place and feeds a model environment; block order and contents, a probe string in a step and the caller's environment (harness case-sensitive/-insensitive, the library's internal env in both modes, nil) must agree for both settings of the runtime-precedence flag; env blocks built with MapFromItems from one slice for two pipelines, and a caller environment that is a zero-valued stateless struct, are included. Values growing beyond 64 KiB through expansion are included. Held on the executions observed.",
          "Trusts github.com/buildkite/interpolate (a dependency, not code under test) for single-string expansion and the list-of-pairs model; state after a failed expansion is not compared.",
          "DESIGN.md §2 C10"),
  "C11": ("exploration",
          "reference-model monitor: matrix-specification predicate vs InterpolateMatrixPermutation, bounded-exhaustive small scope + random, twin/JSON before-after monitor for rejected permutations",
-         "Every matrix of a small scope (anonymous/1/2/3 dimensions, value subsets of {x,y}, 0-2 adjustments from all tuples over {x,y,z} plus malformed shapes, four skip kinds) is checked against every candidate permutation incl. wrong-arity and unknown-dimension ones (about 2.4 million pairs in the quick tier), then random larger matrices; acceptance must equal the specification predicate written in the harness and a rejected permutation must leave the step deep-equal to a twin and JSON-identical. A sample of matrices is built through Parse. Held on the executions observed.",
+         "Every matrix of a small scope (anonymous/1/2/3 dimensions, value subsets of {x,y}, 0-2 adjustments from all tuples over {x,y,z} plus malformed shapes, four skip kinds) is checked against every candidate permutation incl. wrong-arity and unknown-dimension ones (about 2.4 million pairs in the quick tier), then random larger matrices; acceptance must equal the specification predicate written in the harness and a rejected permutation must leave the step deep-equal to a twin and JSON-identical. A sample of matrices is built through Parse. Matrices with 63 to 300 adjustments are included. Held on the executions observed.",
          "Trusts the predicate as a faithful reading of the property; null dimension lists are not generated; which error is returned is not checked.",
          "DESIGN.md §2 C11"),
  "C12": ("exploration",
          "reference-model monitor: hand-written single-pass token scanner mapped over a step specification vs InterpolateMatrixPermutation",
-         "Command steps are built from a specification that lists every string; tokens with inner whitespace, near misses, embedded tokens and plain text are planted in every in-scope position class (command, label, plugin sources, plugin config keys/values at depth incl. maps beyond 8 entries whose keys get renamed, env values, extra keys/values) and in the out-of-scope ones (env names, key, matrix, signature). The expected step is the specification mapped through an independent scanner; a token for a missing dimension must make the call fail; an empty permutation must change nothing. Held on the executions observed.",
+         "Command steps are built from a specification that lists every string; tokens with inner whitespace, near misses, embedded tokens and plain text are planted in every in-scope position class (command, label, plugin sources, plugin config keys/values at depth incl. maps beyond 8 entries whose keys get renamed, env values, extra keys/values) and in the out-of-scope ones (env names, key, matrix, signature). The expected step is the specification mapped through an independent scanner; a token for a missing dimension must make the call fail; an empty permutation must change nothing. A second phase parses YAML documents in which anchored values carrying tokens are referenced by several aliases in unknown fields of one and of several steps, interpolates the steps in random order and compares each with the scanner applied to a pristine twin, immediately and after all siblings were done. Strings of 64 KiB to 200000 bytes occur in every container position. Held on the executions observed.",
          "Trusts the scanner as the reading of the token grammar (ASCII whitespace inside braces); cache scope and atomicity on failure are not asserted.",
          "DESIGN.md §2 C12"),
  "C15": ("exploration",
          "exhaustive rule-table monitor: all key subsets x type values x extra-key variants parsed through Parse in two positions and two formats",
-         "The documented rule table is written out in the harness and compared with the dynamic type of the parsed step, and with the sentinel error inside the warning, for all 1024 subsets of the ten kind-determining keys x 14 type values (absent, documented names, unknown/empty/case variants) x 5 extra-key variants (incl. the empty key and alias-named keys), shuffled key order, at top level and inside a group, as JSON and as YAML; plus all scalar words and a sample of non-words. The table part is a complete enumeration.",
+         "The documented rule table is written out in the harness and compared with the dynamic type of the parsed step, and with the sentinel error inside the warning, for all 1024 subsets of the ten kind-determining keys x 14 type values (absent, documented names, unknown/empty/case variants) x 5 extra-key variants (incl. the empty key and alias-named keys), shuffled key order, at top level and inside a group, as JSON and as YAML; plus all scalar words and a sample of non-words. An edited-mapping phase decodes ordered maps a program built and edited (keys set and deleted again, renamed, renamed onto a present key) and applies the table to the keys the mapping has now. Long lists (to 700 entries) check kinds and that every fallback's cause is reported. The table part is a complete enumeration.",
          "A group whose child falls back to unknown may itself be kept as one verbatim unknown step (accepted when the warning names the cause); non-string type values are hard errors by design and not in the table.",
          "DESIGN.md §2 C15"),
  "C17": ("exploration",
          "reference-model monitor: sources generated from the documented forms with the canonical form known by construction; idempotence and marshalled key on all short strings",
-         "Sources are generated form by form (name, org/name with git-legal refs, paths, scheme URLs, scp-style, drive letters, three or more segments, canonical) so the expected canonical source is known by construction; FullSource must equal it, be idempotent, not modify the plugin, and be the key of both marshalled forms; every string up to length 5/6 over a reduced alphabet (refs restricted to the property's ref language) is checked for idempotence and marshalled key. Held on the executions observed.",
+         "Sources are generated form by form (name, org/name with git-legal refs, paths, scheme URLs, scp-style, drive letters, three or more segments, canonical) so the expected canonical source is known by construction; FullSource must equal it, be idempotent, not modify the plugin, and be the key of both marshalled forms; every string up to length 5/6 over a reduced alphabet (refs restricted to the property's ref language) is checked for idempotence and marshalled key. Names and refs long enough for canonical forms beyond 256 bytes are included. Held on the executions observed.",
          "Percent-encoded sources and refs with empty or dot-only components are outside the property and filtered out.",
          "DESIGN.md §2 C17"),
  "C18": ("exploration",
          "exhaustive allow-list table monitor + generated key pairs cross-verification matrix + LoadKey over generated key-set files",
-         "Validate is run on the complete table of key types (RSA, EC on three curves, OKP, oct; private and public) x every algorithm value the JOSE library registers (signature, key-encryption, content-encryption), unknown/empty/case-variant names and a missing algorithm, plus structurally invalid keys; generated pairs for the three approved algorithms must validate and verify only on the diagonal of the sign/verify matrix; LoadKey is driven with random key-set files (0-4 members, valid/invalid, unique/duplicate/missing ids) x requested ids and malformed inputs, identity decided by thumbprint. The table is a complete enumeration.",
+         "Validate is run on the complete table of key types (RSA, EC on three curves, OKP, oct; private and public) x every algorithm value the JOSE library registers (signature, key-encryption, content-encryption), unknown/empty/case-variant names and a missing algorithm, plus structurally invalid keys; generated pairs for the three approved algorithms must validate and verify only on the diagonal of the sign/verify matrix; LoadKey is driven with random key-set files (0-4 members, valid/invalid, unique/duplicate/missing ids) x requested ids and malformed inputs, identity decided by thumbprint. Pairs generated concurrently by the worker pool must all be distinct keys, verify under their own half and not under their neighbour's. Key-set files of up to 700 / 1500 members and of 300 KiB are loaded. The table is a complete enumeration.",
          "Trusts the JOSE library for signature verification itself and for key.Validate(); which member wins for duplicated ids is not asserted.",
          "DESIGN.md §2 C18"),
  "C03": ("exploration",
          "reference-model monitor: independent normaliser on the generator's tree vs JSON/YAML marshalling of the parsed pipeline read back with independent readers",
-         "Grammar-generated pipeline documents (every step kind and shorthand, feature sweeps over all key/alias subsets, command/commands form pairs, plugin/matrix/cache forms, arbitrary extras of every YAML scalar kind, tricky strings, aliases and merges) are rendered as JSON and as YAML in random styles (renderer self-checked against yaml.v3's Node reader), parsed, marshalled to both formats, read back with encoding/json's token stream and yaml.Node, and compared with the normal form computed by an independently written normaliser; the key multiset of every mapping must match exactly, so dropped, duplicated, re-typed or moved data is detected. Held on the documents generated.",
+         "Grammar-generated pipeline documents (every step kind and shorthand, feature sweeps over all key/alias subsets, command/commands form pairs, plugin/matrix/cache forms, arbitrary extras of every YAML scalar kind, tricky strings, aliases and merges) are rendered as JSON and as YAML in random styles (renderer self-checked against yaml.v3's Node reader), parsed, marshalled to both formats, read back with encoding/json's token stream and yaml.Node, and compared with the normal form computed by an independently written normaliser; the key multiset of every mapping must match exactly, so dropped, duplicated, re-typed or moved data is detected. A scale phase checks documents of 300 to 20000 / 150000 steps (1.5 / 10 MiB). Held on the documents generated.",
          "Trusts the normaliser as the reading of the documented normal form (decisions where the model follows the code are listed in DESIGN.md), yaml.v3's parser for rendering self-checks, and the value equivalences of DESIGN.md §1.2; input classes K1, K3, K4 are excluded and replayed as known findings.",
          "DESIGN.md §2 C03"),
  "C08": ("exploration",
          "reference-model monitor: document key order (merge resolver for merged keys) vs key sequences of both marshallings at every order-preserving position; encode/decode round trips of programmatic maps",
-         "Documents aimed at order-preserving positions (pipeline env, plugins as one mapping, mappings nested in extras/contents of every step kind and of the pipeline, unknown steps) with 0-300 keys of every key class, nesting and `<<` merges are parsed and marshalled; key sequences read back with independent readers must equal the generator's order. Programmatically built ordered maps must survive JSON and YAML encode/decode with ordered.Equal and tree equality. Held on the executions observed.",
+         "Documents aimed at order-preserving positions (pipeline env, plugins as one mapping, mappings nested in extras/contents of every step kind and of the pipeline, unknown steps) with 0-300 keys of every key class, nesting and `<<` merges are parsed and marshalled; key sequences read back with independent readers must equal the generator's order. Programmatically built ordered maps must survive JSON and YAML encode/decode with ordered.Equal and tree equality. A depth phase places order-significant mappings 1-200 / 1-600 levels deep. Held on the executions observed.",
          "Order at Go-map-backed levels and inside plugin configs is deliberately not significant; K4 (key <<) is replayed as a known finding.",
          "DESIGN.md §2 C08"),
  "C09": ("exploration",
          "metamorphic monitor: parse -> marshal -> parse fixpoint compared on the object model through an independent reflective converter; repeated marshals compared bytewise",
-         "For grammar-generated documents the JSON and the YAML marshalling of the parsed pipeline are re-parsed and the two object models compared structurally (dynamic step types, every exported field, ordered maps in order); every command step goes through CommandStep.UnmarshalJSON and every plugin list through Plugins.UnmarshalJSON; each pipeline is marshalled 6-10 times per format and the bytes compared (maps beyond 8 entries included). Held on the documents generated.",
+         "For grammar-generated documents the JSON and the YAML marshalling of the parsed pipeline are re-parsed and the two object models compared structurally (dynamic step types, every exported field, ordered maps in order); every command step goes through CommandStep.UnmarshalJSON and every plugin list through Plugins.UnmarshalJSON; each pipeline is marshalled 6-10 times per format and the bytes compared (maps beyond 8 entries included). One third of the documents get a second round after the library's own interpolation changed the object that was marshalled before: marshalling is again byte-identical and both formats re-parse to the same pipeline. A scale phase round-trips documents whose normal form is several MiB. Held on the documents generated.",
          "Equivalences of DESIGN.md §1.2 (numbers by value, timestamp = RFC 3339 string, typed containers nil = empty, canonical plugin source spelling); K1-K4 replayed as known findings; F6 replayed as fixed.",
          "DESIGN.md §2 C09"),
  "C01": ("exploration",
          "metamorphic monitor: sign -> single-point mutation -> verify must fail whenever the harness's semantic form of the presented content changed; positive controls; payload channel cross-check",
-         "Generated command steps are signed with each supported key kind; positive controls must verify (and Verify must rebuild exactly Sign's payload, read from the debug logger channel); every applicable mutation of a ~60-kind catalogue (command, step env, plugin sequence/sources/config leaves at depth, matrix, repository URL, verify-time env incl. shadowing, the signature record: algorithm, field list, spliced/truncated/bit-flipped value, replaced header; and the key) is presented and Verify must return an error whenever the independently computed semantic form differs or the record/key was altered. Held on the executions observed.",
+         "Generated command steps are signed with each supported key kind; positive controls must verify (and Verify must rebuild exactly Sign's payload, read from the debug logger channel); every applicable mutation of a ~60-kind catalogue (command, step env, plugin sequence/sources/config leaves at depth, matrix, repository URL, verify-time env incl. shadowing, the signature record: algorithm, field list, spliced/truncated/bit-flipped value, replaced header; and the key) is presented and Verify must return an error whenever the independently computed semantic form differs or the record/key was altered. Field lists altered without changing their length are presented with exactly the signed environment. Held on the executions observed.",
          "Trusts the JOSE library's cryptography; semantic form is the harness's reading of the signed content; list re-ordering/duplication and ECDSA malleability are not single-point semantic changes; K1 replayed as known finding.",
          "DESIGN.md §2 C01"),
  "C02": ("exploration",
          "round-trip monitor: parse -> (interpolate) -> SignSteps -> marshal JSON/YAML -> re-parse (Parse and CommandStep.UnmarshalJSON) -> Verify every command step",
-         "Grammar-generated documents covering every shorthand, nil vs empty containers, source spellings and scalar kinds are signed and serialised three times per format; both re-parse entry points must yield command steps at the same positions whose signatures verify under the public key with env = pipeline env plus unrelated variables; four key kinds. Held on the documents generated.",
+         "Grammar-generated documents covering every shorthand, nil vs empty containers, source spellings and scalar kinds are signed and serialised three times per format; both re-parse entry points must yield command steps at the same positions whose signatures verify under the public key with env = pipeline env plus unrelated variables; four key kinds. A depth sweep (1-80 / 1-400 levels) signs, serialises, re-parses and verifies documents whose output nests deeper than their input. Held on the documents generated.",
          "Trusts Verify's discrimination (decided by C01); YAML-leg exclusion of C02's text applied; documents with unknown steps must be refused by SignSteps.",
          "DESIGN.md §2 C02"),
  "C04": ("exploration",
          "reference-model monitor: generic reflective walker + interpolate library applied once per string on a twin, vs Pipeline.Interpolate; repeated runs compared for determinism",
-         "Documents whose every string (keys and values, every position class incl. cache settings, adjustment skip, unknown steps, Go maps up to 40 entries with renamed keys, alias-shared subtrees) is built around reference snippets with unique ids are interpolated 12-60 times on fresh parses; the result must equal the twin converted by an independent reflective walker and mapped through the interpolate library exactly once per string (env block per the sequential fold), signatures untouched, all runs identical, failing expansions reported. X expands to another reference so a second pass is visible. Held on the executions observed.",
+         "Documents whose every string (keys and values, every position class incl. cache settings, adjustment skip, unknown steps, Go maps up to 40 entries with renamed keys, alias-shared subtrees) is built around reference snippets with unique ids are interpolated 12-60 times on fresh parses; the result must equal the twin converted by an independent reflective walker and mapped through the interpolate library exactly once per string (env block per the sequential fold), signatures untouched, all runs identical, failing expansions reported. X expands to another reference so a second pass is visible. A sequential phase interpolates documents without an environment (nil) and compares with the model under an empty one, so that state left behind by one call shows in the next. A depth phase places references 1-120 / 1-600 levels deep under sequences and under mappings with reference-bearing keys. Held on the executions observed.",
          "Trusts github.com/buildkite/interpolate for single strings; Go map iteration orders are sampled by repetition (and by the second toolchain in the thorough tier), not enumerated.",
          "DESIGN.md §2 C04"),
  "C06": ("exploration",
          "structural monitor: harness tree walk over generated step lists after SignSteps (signature presence, algorithm, exact field list, verification), twin comparison, refusal on unknown steps at every depth/position",
-         "Programmatically built lists (all kinds, groups to depth 4, unknown steps placed at each depth and first/middle/last position with string/mapping/nil contents, TriggerStep by value and by pointer) and parsed lists are signed with four key kinds under nil/empty/disjoint/overlapping pipeline envs: success iff no unknown step; every command step at every depth has a verifying signature naming the key's algorithm with exactly the sorted field list; a deep twin shows nothing else changed; the env map is unchanged.",
+         "Programmatically built lists (all kinds, groups to depth 4, unknown steps placed at each depth and first/middle/last position with string/mapping/nil contents, TriggerStep by value and by pointer) and parsed lists are signed with four key kinds under nil/empty/disjoint/overlapping pipeline envs: success iff no unknown step; every command step at every depth has a verifying signature naming the key's algorithm with exactly the sorted field list; a deep twin shows nothing else changed; the env map is unchanged. Lists of 31 to 257 steps occur at the top level and inside groups.",
          "Verification uses the library's Verify (discrimination decided by C01).",
          "DESIGN.md §2 C06"),
  "C14": ("exploration",
          "metamorphic + partition monitor: payload bytes from the debug logger channel vs the harness's semantic form over families of must-collide and must-differ variants",
-         "Around each generated (step, pipeline env, repository URL, key kind) a family of re-orderings/re-spellings that must give byte-identical payloads and of boundary-shifting / single-point variants that must give different payloads is signed; pairwise assertions plus a batch-wide monitor requiring the partition by payload hash to equal the partition by semantic form (tens of thousands of payloads per run).",
+         "Around each generated (step, pipeline env, repository URL, key kind) a family of re-orderings/re-spellings that must give byte-identical payloads and of boundary-shifting / single-point variants that must give different payloads is signed; pairwise assertions plus a batch-wide monitor requiring the partition by payload hash to equal the partition by semantic form (tens of thousands of payloads per run). The payload of every step signed by SignSteps as one of five (list or group, shuffled) equals the payload of the same step signed alone.",
          "Semantic form is the harness's reading of the signed content (numbers by value, canonical plugin source, empty = nil); integers beyond 2^53 and K1 are out of scope as stated in DESIGN.md.",
          "DESIGN.md §2 C14"),
  "C07": ("exploration",
@@ -88,17 +88,17 @@ CHECKS = {
          "DESIGN.md §2 C07"),
  "C13": ("exploration",
          "hostile-input monitor: seeded mutational generator over a corpus of real pipelines + type-error injection into grammar documents (+ coverage-guided native fuzzing in the thorough tier) feeding panic / time / structure / fallback-reporting / marshallability monitors",
-         "Every input (corpus, 1-4 seeded mutations per input, grammar documents with one node's kind swapped) is parsed under a panic guard with wall clock recorded; for usable results the monitors require non-nil Steps, no nil step, step counts equal to the input's step sequence obtained independently (yaml.Node + harness merge resolver, recursively in groups), unknown steps equal to the input entry verbatim, at least one reported cause per fallback, and successful JSON and YAML marshalling. Held on the inputs generated; the thorough tier adds coverage-guided fuzzing bounded by execution count.",
+         "Every input (corpus, 1-4 seeded mutations per input, grammar documents with one node's kind swapped) is parsed under a panic guard with wall clock recorded; for usable results the monitors require non-nil Steps, no nil step, step counts equal to the input's step sequence obtained independently (yaml.Node + harness merge resolver, recursively in groups), unknown steps equal to the input entry verbatim, at least one reported cause per fallback, and successful JSON and YAML marshalling. Lists with up to 1200 fallbacks and documents of up to 20000 / 150000 steps are included. Held on the inputs generated; the thorough tier adds coverage-guided fuzzing bounded by execution count.",
          "Inputs above 64 KiB or 2*10^5 expansion nodes are dropped; K3/K5 failures are recognised by failure mode + trigger in the data and counted as known findings.",
          "DESIGN.md §2 C13"),
  "C16": ("exploration",
          "reference-model monitor: struct types built with reflect.StructOf from a harness-owned descriptor; expected key partition derived from the descriptor; yaml.v3's decoder as reference on the alias-free subset",
-         "For thousands of generated target types (scalar/slice/map/any/nested/pointer fields, tagged/untagged/skipped/omitempty fields, alias lists, inline map / inline struct / inline pointer incl. nested catch-alls) and well-typed documents drawn from the same descriptor (fields addressed by primary, by one of several present aliases, absent, or null; alias next to primary; keys named like skipped fields; the empty key; extras), decoding into sentinel-pre-populated destinations must put every key in exactly one destination by the rule tag > first present alias > catch-all, leave absent fields untouched and zero null ones; for alias-free types and strictly typed documents the result equals yaml.v3's own decoder; two fixed members (ordered-map fields with typed values; self-decoding elements that may answer with a warning) are compared with yaml.v3 on plain-map twins / entry by entry. Held on the pairs generated.",
+         "For thousands of generated target types (scalar/slice/map/any/nested/pointer fields, tagged/untagged/skipped/omitempty fields, alias lists, inline map / inline struct / inline pointer incl. nested catch-alls) and well-typed documents drawn from the same descriptor (fields addressed by primary, by one of several present aliases, absent, or null; alias next to primary; keys named like skipped fields; the empty key; extras), decoding into sentinel-pre-populated destinations must put every key in exactly one destination by the rule tag > first present alias > catch-all, leave absent fields untouched and zero null ones; for alias-free types and strictly typed documents the result equals yaml.v3's own decoder; two fixed members (ordered-map fields with typed values; self-decoding elements that may answer with a warning) are compared with yaml.v3 on plain-map twins / entry by entry. Keys of 30 to 130 characters are included. Held on the pairs generated.",
          "Ill-formed types (an alias equal to another field's key) and append-vs-replace semantics for pre-populated containers are outside the property; yaml.v3 comparison only on the subset yaml.v3 supports.",
          "DESIGN.md §2 C16"),
  "C19": ("exploration",
          "Go race detector (-race build) over barrier-released 16-goroutine workloads + sequential-vs-concurrent result comparison + deep before/after state monitor (hook slot layout, unexported fields included) + long-lived-process versus fresh-child-process comparison of whole life cycles (history independence)",
-         "The monitor binary is built with -race; 16 goroutines run whole life cycles on disjoint documents (results compared with a sequential re-run) and hammer fresh, never-before-observed shared fixtures (an ordered map carrying tombstones, a parsed and signed pipeline, a key set, a private key with a shared step, a plugin) with every observer, results compared with those computed on an identically built twin; race reports are read from the detector's log files and any report with a go-pipeline frame is a violation; sequentially, deep state including unexported fields, the env map, the key set and the hook's slot layout is compared around every observer; finally the life cycle of generated and corpus documents at the end of the long-lived process is compared with the same life cycle in a fresh child process each (no hidden state carried from one call to the next). Held on the schedules the Go scheduler produced; the overlap achieved is recorded.",
+         "The monitor binary is built with -race; 16 goroutines run whole life cycles on disjoint documents (results compared with a sequential re-run) and hammer fresh, never-before-observed shared fixtures (an ordered map carrying tombstones, a parsed and signed pipeline, a key set, a private key with a shared step, a plugin) with every observer, results compared with those computed on an identically built twin; race reports are read from the detector's log files and any report with a go-pipeline frame is a violation; sequentially, deep state including unexported fields, the env map, the key set and the hook's slot layout is compared around every observer; finally the life cycle of generated and corpus documents at the end of the long-lived process is compared with the same life cycle in a fresh child process each (no hidden state carried from one call to the next). Cold-start child processes run their first Parse on 16 goroutines at once under the race detector. Held on the schedules the Go scheduler produced; the overlap achieved is recorded.",
          "The race detector only sees accesses that executed; randomised ECDSA/PSS signatures are compared by verification.",
          "DESIGN.md §2 C19"),
 }
